@@ -242,6 +242,12 @@ def py_sorted_ids(labels, ids):
 # ---------------------------------------------------------------------------
 def gen_case(rng, tier):
     nmax = 5 if tier == "quick" else 7
+    # probabilities that are NOT dyadic (tenths, 0.7/0.2/0.1, thirds, sevenths, 1/k over many outcomes): the case then
+    # holds the exact rational of the double msdm receives (see float_exact), so "the arrays hold exactly the numbers the
+    # functions return" is compared bit-exactly against the floats the functions return
+    nondyadic = rng.random() < .3
+    if nondyadic and rng.random() < .4:
+        nmax = 11                                   # room for many-outcome rows (ten outcomes of 0.1)
     r = rng.random()
     abs_out = r < .14
     # boundary discount rates: 1, 0 (myopic; falsy in Python), 2^-20; else gen_mdp's 1/2..19/20
@@ -264,6 +270,40 @@ def gen_case(rng, tier):
             s = rng.choice(ab)
             if s not in [x for x, _ in m["init"]]:
                 m["init"][0][0] = s
+    if nondyadic and qv is None:
+        def nd_split(k):
+            r2 = rng.random()
+            if r2 < .3:
+                return [F(1, k)] * k                                    # 1/k each (k = 10: ten outcomes of 0.1)
+            if k == 3 and r2 < .5:
+                return rng.choice([[F(7, 10), F(2, 10), F(1, 10)], [F(3, 10), F(3, 10), F(4, 10)], [F(1, 3)] * 3])
+            den = rng.choice([d for d in (3, 5, 6, 7, 9, 10, 100) if d >= k])
+            return gen_mdp._split_prob(rng, k, denom=den)
+        for key in sorted(m["trans"]):
+            s_, a_ = map(int, key.split(","))
+            if m["absorbing"][s_] or rng.random() < .35:
+                continue
+            k = rng.choice([2, 3, 3, min(n, 5), n]) if n >= 2 else 1
+            k = max(1, min(k, n))
+            if k == 1:
+                continue
+            succ = rng.sample(range(n), k)
+            row = [[ns, str(p)] for ns, p in zip(succ, nd_split(k))]
+            if k < n and rng.random() < .15:
+                row.append([rng.choice([x for x in range(n) if x not in succ]), "0"])
+            rng.shuffle(row)
+            for kk in [kk for kk in m["reward"] if kk.startswith(key + ",")]:
+                m["reward"].pop(kk)
+            for ns, p in row:
+                if rng.random() < .6:
+                    r3 = F(rng.randint(-16, 16), 4)
+                    if r3 != 0:
+                        m["reward"]["%s,%d" % (key, ns)] = str(r3)
+            m["trans"][key] = row
+        if rng.random() < .5:
+            k = rng.randint(2, min(n, 4)) if n >= 2 else 1
+            if k >= 2:
+                m["init"] = [[s_, str(p)] for s_, p in zip(rng.sample(range(n), k), nd_split(k))]
     if qv and uniform and rng.random() < .5:
         perm = list(range(nA))
         rng.shuffle(perm)
@@ -399,7 +439,29 @@ def gen_case(rng, tier):
         p = list(range(nA))
         rng.shuffle(p)
         case["explicit_actions"] = p
+    case["nondyadic"] = bool(nondyadic and qv is None)
+    float_exact(case)
     return case
+
+
+def fx(p):
+    """the exact rational of the double nearest to p (identity on dyadic numbers)"""
+    return str(F(float(F(p))))
+
+
+def float_exact(case):
+    """replace every probability by the exact rational of the double msdm is given: impl (float(Fraction)), model and
+    oracle then all work with the very same number"""
+    m = case["mdp"]
+    for row in m["trans"].values():
+        for e in row:
+            e[1] = fx(e[1])
+    for e in m["init"]:
+        e[1] = fx(e[1])
+    raw = case.get("raw")
+    if raw:
+        raw["s0"] = [fx(x) for x in raw["s0"]]
+        raw["tf"] = [[[fx(x) for x in r] for r in mm] for mm in raw["tf"]]
 
 
 def spec_reach(case, expand_initial):
@@ -673,6 +735,11 @@ class Checker:
                 continue
             # the discount rate is the one number that is not dyadic: msdm holds the nearest double
             rnd = (lambda z: F(float(z))) if k == "gamma" else (lambda z: z)
+            if k == "sarf" and orc is not None:
+                # einsum over doubles: where a summand involves a full-mantissa (non-dyadic) probability the float
+                # dot product carries rounding; bound n * 2^-52 * sum |r p| (dyadic entries stay exact: bound 0)
+                x = [[self.sarf_snap(x[i][j], orc, i, j) if i < len(orc["tf"]) and j < len(orc["tf"][i]) else x[i][j]
+                      for j in range(len(x[i]))] for i in range(len(x))] if isinstance(x, list) else x
             d_model = first_diff(x, rnd(mv[k]))
             d_orc = first_diff(x, rnd(orc[k])) if orc is not None else None
             if d_orc:
@@ -684,6 +751,17 @@ class Checker:
                 self.report("C06:model-differs:%s:%s" % (tag, k), {"state_list": sl, "action_list": al, "diff": d_model}, False)
                 ok = False
         return ok
+
+    @staticmethod
+    def sarf_snap(v, orc, i, j):
+        """the exact value if the float v is within the dot-product rounding bound of it, else v itself"""
+        P, R = orc["tf"][i][j], orc["rf"][i][j]
+        terms = [(p, r) for p, r in zip(P, R) if r != 0 and p != 0]
+        if not any(p.denominator > 2 ** 40 for p, r in terms):
+            return v
+        exact = sum(p * r for p, r in terms)
+        bound = len(P) * F(1, 2 ** 52) * sum(abs(p * r) for p, r in terms)
+        return exact if abs(v - exact) <= bound else v
 
     def compare_lists(self, tag, o, ml, explicit_s, explicit_a):
         """ml = model c06_lists tuple; returns (sl, al) as reported by msdm or None"""
@@ -1073,7 +1151,8 @@ def run(ctx):
              "cutoff_first": case["reach_order"][0] is not None, "cutoff_float": case["cutoff_float"],
              "actions_as_list": case["actions_as_list"], "native_distributions": case["dist_repr"] == "native",
              "fm_" + case["fm_lists"]: True,
-             "raw_from_matrices": bool(case.get("raw")),
+             "raw_from_matrices": bool(case.get("raw")), "nondyadic_probabilities": bool(case.get("nondyadic")),
+             "many_outcome_row": any(len(r) >= 8 for r in case["mdp"]["trans"].values()),
              "gamma_zero": F(case["mdp"]["gamma"]) == 0, "gamma_tiny": 0 < F(case["mdp"]["gamma"]) < F(1, 1000),
              "gamma_passed_as_int": bool(case.get("gamma_int")),
              "repeated_action": any(len(set(a)) != len(a) for a in case["mdp"]["actions"]),
@@ -1084,7 +1163,7 @@ def run(ctx):
     cov = {
         "evaluations": len(idx),
         "distinct_nontrivial": len(distinct),
-        "rule": "functional MDPs from harness/gen_mdp.py (1..%d states, 1..3 actions, k/8 probabilities, zero-probability entries in "
+        "rule": "functional MDPs from harness/gen_mdp.py (1..%d states, 1..3 actions, k/8 probabilities, in 30%% of the cases non-dyadic rows (tenths, 0.7/0.2/0.1, thirds, sevenths, 1/k over up to 11 outcomes; the case holds the exact rational of each double), zero-probability entries in "
                 "next-state and initial distributions, rewards on zero-probability successors, explicit/implicit absorbing states, near-absorbing states (self-loop probability 1 - 2^-k, k in {10,20,30}, or reward +-2^-30 on a certain self-loop), dead ends, actions listed twice, "
                 "gamma in {1/2..19/20, 1, 0, 2^-20, 1-2^-20}, 0 and 1 passed as int or float) rewards up to 1e6 or 2^-30 apart, initial probabilities 2^-30 / 1-2^-30, MDPs without any action or without absorbing states; 40%% also go through from_matrices on non-canonical dense arrays (transition rows under unavailable actions, rewards on zero-probability transitions, action-matrix entries 2); relabelled with ints / floats / bools / falsy labels (0, 0.0, False, '', (), frozendict()) / strings / int tuples / (int,str) tuples / frozendicts / nested mixed tuples "
                 "(sortable and unsortable sets), explicit (shuffled, with unreachable states) or inferred state and action lists, 1-3 "
